@@ -84,7 +84,7 @@ theorem initConsistent_spec {base : Image A} {nd : Node A} (cfg : Cfg) (h : Core
     have hb : nd.tip = [] := by rw [← h.tip_eq]; exact hi.marker_none hmk
     have he : effMarker nd.img = [] := by simp [effMarker, hmk]
     obtain ⟨c1, e1⟩ := core_step (nd' := { emit nd (.setMarker nd.tip) with lastFlush := some nd.tip })
-      h (c := .setMarker nd.tip) ⟨hmk, hb⟩ rfl rfl rfl rfl h.tip_eq
+      h (c := .setMarker nd.tip) ⟨hmk, hb⟩ rfl rfl rfl rfl rfl h.tip_eq
     refine ⟨_, rfl, ⟨c1, ?_, by simp [emit, apply]⟩, rfl, e1⟩
     show nd.utxo = utxoOf A nd.tip
     rw [hu, hi.utxo_eq, he, hb]
@@ -102,11 +102,11 @@ theorem initConsistent_spec {base : Image A} {nd : Node A} (cfg : Cfg) (h : Core
       have hmi : m ∈ keys nd.index := closed_suffix h.idx_closed htip hm_anc
       rw [if_neg (fun hh => hh hmi)]
       rw [forkOf_of_suffix hm_anc]
-      obtain ⟨nd', r, c2, m2, u2, t2, e2⟩ := replayBlocks_spec cfg (blocksAbove nd.tip m.length) m nd h hmsome
-        (by rw [hu, hi.utxo_eq, he]) (by rw [he]; exact Nat.le_refl _) (blocksAbove_append hm_anc)
-      rw [r]
-      simp only
-      exact ⟨_, rfl, ⟨core_with_lastFlush c2 _, u2, m2⟩, t2, e2⟩
+      obtain ⟨nd', r, c2, m2, u2, t2, e2⟩ := replayBlocks_spec cfg (blocksAbove nd.tip m.length) m
+        { nd with lastFlush := some m } (core_with_lastFlush h _) hmsome
+        (by show nd.utxo = _; rw [hu, hi.utxo_eq, he]) (by show (effMarker nd.img).length ≤ _; rw [he]; exact Nat.le_refl _)
+        (blocksAbove_append hm_anc)
+      exact ⟨nd', r, ⟨c2, u2, m2⟩, t2, e2⟩
 
 theorem sound_nil {base : Image A} (h : Inv' base) : Sound base [] := by
   intro k
@@ -143,7 +143,7 @@ theorem recover_spec {img : Image A} (cfg : Cfg) (hi : Inv img) :
   obtain ⟨c2, e2⟩ := core_flushDirty c1
   obtain ⟨c3, e3⟩ := core_step
     (nd' := emit (flushDirty (markValid (bootNode img img.rows img.best) (suffixes img.best))) .nop)
-    c2 (c := .nop) trivial rfl rfl rfl rfl c2.tip_eq
+    c2 (c := .nop) trivial rfl rfl rfl rfl rfl c2.tip_eq
   have e03 := Ext.trans e1 (Ext.trans e2 e3)
   have hu3 : (emit (flushDirty (markValid (bootNode img img.rows img.best) (suffixes img.best))) .nop).utxo
       = (emit (flushDirty (markValid (bootNode img img.rows img.best) (suffixes img.best))) .nop).img.utxo := by
@@ -180,7 +180,7 @@ theorem recover_empty_spec (cfg : Cfg) :
       dirty_idx := fun n hn => by simp [emit, bootNode] at hn }
   obtain ⟨c1, e1⟩ := core_step
     (nd' := emit (emit (bootNode (Image.empty A) [([], genesisStatus)] []) .create) .nop)
-    c0 (c := .nop) trivial rfl rfl rfl rfl c0.tip_eq
+    c0 (c := .nop) trivial rfl rfl rfl rfl rfl c0.tip_eq
   obtain ⟨rn, r, g, t, _⟩ := initConsistent_spec cfg c1 rfl (by simp [emit, keys, bootNode])
   exact ⟨rn, r, g, t⟩
 
